@@ -699,6 +699,12 @@ func (zp *ZoneParser) Next() (RR, bool) {
 				return zp.setParseError(err.err, err.lex)
 			}
 
+			// A failed read ends the token stream like the end of the input
+			// does; rdata cut short by it is an error to report, not a record.
+			if zp.c.Err() != nil {
+				return nil, false
+			}
+
 			if parseAsRFC3597 {
 				err := parseAsRR.(*RFC3597).fromRFC3597(rr)
 				if err != nil {
